@@ -217,17 +217,31 @@ package tbtc
 //@   ensures forall c ref :: c in old(ghost.ctxDone) ==> c in ghost.ctxDone
 //@   ensures result == nil ==> ghost.now >= arg1 || arg0 in ghost.ctxDone
 
+// The announcer hands back indexes of group members only (Announcer.Announce adds
+// the member's own index and senders accepted by IsValidMembership, which bounds
+// the index by the group size). Assumed here at the interface; ghost.groupSize is
+// tied to the operator list by the loops' preconditions.
+//@ ghost groupSize int
+//@ assume func signingAnnouncer.Announce
+//@   modifies ghost.ctxDone
+//@   ensures err == nil ==> len(result0) <= ghost.groupSize && (forall k int :: 0 <= k && k < len(result0) ==> 1 <= result0[k] && int(result0[k]) <= ghost.groupSize)
+//@ assume func dkgAnnouncer.Announce
+//@   modifies ghost.ctxDone
+//@   ensures err == nil ==> len(result0) <= ghost.groupSize && (forall k int :: 0 <= k && k < len(result0) ==> 1 <= result0[k] && int(result0[k]) <= ghost.groupSize)
+
 //@ func newSigningRetryLoop
 //@   property C11 C46
 //@   modifies alloc
 //@   ensures result != nil && !old(allocated(result)) && result.attemptCounter == 0 && result.attemptStartBlock == initialStartBlock
+//@   ensures result.signingGroupOperators == signingGroupOperators && result.groupParameters == groupParameters
 
 //@ func signingRetryLoop.start
 //@   property C11
 //@   arith math
 //@   binds ghost.loopStart = srl.attemptStartBlock
 //@   requires srl.attemptCounter == 0
-//@   modifies srl.attemptCounter, srl.attemptStartBlock, ghost.lastSeenBlock, ghost.now, ghost.ctxDone, alloc
+//@   requires [selection-preconditions] ghost.groupSize == len(srl.signingGroupOperators) && len(srl.signingGroupOperators) <= 255 && srl.groupParameters.HonestThreshold >= 0
+//@   modifies srl.attemptCounter, srl.attemptStartBlock, ghost.lastSeenBlock, ghost.now, ghost.ctxDone, ghost.selCandidates, alloc
 //@   loop 1 invariant srl.attemptCounter >= 0 && srl.attemptStartBlock == ghost.loopStart + ite(srl.attemptCounter >= 1, srl.attemptCounter - 1, 0) * signingAttemptMaximumBlocks()
 
 //@ assume func dkgRetryLoop.start:dkgAttemptFn
@@ -244,6 +258,7 @@ package tbtc
 //@   arith math
 //@   binds ghost.loopStart = drl.attemptStartBlock
 //@   requires drl.attemptCounter == 0
+//@   requires [selection-preconditions] ghost.groupSize == len(drl.selectedOperators) && len(drl.selectedOperators) <= 255 && drl.groupParameters.GroupQuorum >= 0 && drl.groupParameters.GroupQuorum <= 1000000000 && drl.attemptsLimit >= 1 && drl.attemptsLimit <= 1000000000
 //@   modifies drl.attemptCounter, drl.attemptStartBlock, ghost.now, ghost.ctxDone, alloc
 //@   loop 1 invariant drl.attemptCounter >= 0 && drl.attemptStartBlock == ghost.loopStart + ite(drl.attemptCounter >= 1, drl.attemptCounter - 1, 0) * dkgAttemptMaximumBlocks()
 
@@ -392,12 +407,19 @@ package tbtc
 //@   assert call:withCancelOnBlock : [signing-context-ends-at-timeout] arg1 == signingTimeoutBlock
 //@   assert call:walletSigningExecutor.signBatch : [batch-starts-at-signing-start] arg2 == signingStartBlock
 
+//@ func signingExecutor.wallet
+//@   property C46
+//@   requires len(se.signers) >= 1 && se.signers[0] != nil
+//@   ensures result == se.signers[0].wallet
+
 //@ func signingExecutor.sign
 //@   property C46
 //@   opt noframe 1
 //@   requires startBlock <= 4611686018427387904 && se.signingAttemptsLimit <= 1000
+//@   requires [wallet-well-formed] len(se.signers) >= 1 && se.signers[0] != nil && ghost.groupSize == len(se.signers[0].wallet.signingGroupOperators) && len(se.signers[0].wallet.signingGroupOperators) <= 255 && se.groupParameters != nil && se.groupParameters.HonestThreshold >= 0
 //@   lit 1
 //@     requires [retry-loop-window] loopTimeoutBlock == startBlock + se.signingAttemptsLimit * signingAttemptMaximumBlocks()
+//@     requires [wallet-well-formed] ghost.groupSize == len(wallet.signingGroupOperators) && len(wallet.signingGroupOperators) <= 255 && se.groupParameters != nil && se.groupParameters.HonestThreshold >= 0
 //@     opt noframe 1
 //@     assert call:withCancelOnBlock@1 : [loop-context-ends-at-loop-timeout] arg1 == loopTimeoutBlock
 //@     assert call:newSigningRetryLoop : [loop-starts-at-signing-start] arg2 == startBlock
@@ -620,3 +642,120 @@ package tbtc
 //@   property C37
 //@   modifies alloc
 //@   ensures [one-cache-per-event-kind] result != nil && result.dkgSeedCache != nil && result.dkgResultHashCache != nil && result.walletClosedCache != nil && result.dkgSeedCache != result.dkgResultHashCache && result.dkgSeedCache != result.walletClosedCache && result.dkgResultHashCache != result.walletClosedCache
+
+// ---------------------------------------------------------------------------
+// C08 (sentence 2): final signing group indexes
+
+//@ ghost fsgSorted []group.MemberIndex
+
+//@ func finalSigningGroup
+//@   property C08
+//@   requires groupParameters != nil && len(operatingMembersIndexes) <= 255 && len(selectedOperators) <= 255
+//@   requires [operating-ids-are-valid-member-indexes] forall k int :: 0 <= k && k < len(operatingMembersIndexes) ==> 1 <= operatingMembersIndexes[k] && operatingMembersIndexes[k] <= len(selectedOperators)
+//@   requires [operating-ids-are-distinct] forall p, q int :: 0 <= p && p < q && q < len(operatingMembersIndexes) ==> operatingMembersIndexes[p] != operatingMembersIndexes[q]
+//@   yields ghost.fsgSorted = operatingMembersIndexes
+//@   modifies alloc
+//@   ensures [sorted-view-is-an-ascending-permutation-of-the-operating-ids] err == nil ==> len(ghost.fsgSorted) == len(operatingMembersIndexes) && (forall i, j int :: 0 <= i && i < j && j < len(ghost.fsgSorted) ==> ghost.fsgSorted[i] < ghost.fsgSorted[j]) && (forall i int :: 0 <= i && i < len(ghost.fsgSorted) ==> (exists k int :: 0 <= k && k < len(operatingMembersIndexes) && operatingMembersIndexes[k] == ghost.fsgSorted[i]))
+//@   ensures [final-operator-i-is-the-selected-operator-of-the-i-th-smallest-operating-id] err == nil ==> len(result0) == len(operatingMembersIndexes) && (forall i int :: 0 <= i && i < len(result0) ==> result0[i] == selectedOperators[ghost.fsgSorted[i] - 1])
+//@   ensures [new-index-of-an-operating-id-is-its-rank] err == nil ==> (forall i int :: 0 <= i && i < len(ghost.fsgSorted) ==> ((ghost.fsgSorted[i] in result1) && result1[ghost.fsgSorted[i]] == i + 1))
+//@   ensures [only-operating-ids-get-an-index] err == nil ==> (forall id group.MemberIndex :: (id in result1) ==> (exists i int :: 0 <= i && i < len(ghost.fsgSorted) && ghost.fsgSorted[i] == id))
+//@   loop 1 invariant len(finalOperators) == len(operatingMembersIndexes) && (forall t int :: 0 <= t && t < i ==> (finalOperators[t] == selectedOperators[operatingMembersIndexes[t] - 1] && (operatingMembersIndexes[t] in finalMembersIndexes) && finalMembersIndexes[operatingMembersIndexes[t]] == t + 1))
+//@   loop 1 invariant forall id group.MemberIndex :: (id in finalMembersIndexes) ==> (exists t int :: 0 <= t && t < i && operatingMembersIndexes[t] == id)
+
+// With the wallet's party keys being the original member indexes of the final
+// group in ascending order (tss-lib keeps Ks sorted), the stored index of an
+// operating member maps back to its own key-generation party key.
+//@ lemma stored-index-maps-back-to-the-keygen-party: forall S mapof[int]int, M mapof[int]int, n int, i int :: (0 <= i && i < n && M[S[i]] == i + 1) ==> S[M[S[i]] - 1] == S[i]
+//@   property C08
+
+// ---------------------------------------------------------------------------
+// C10: attempt member selection (signing and DKG retry loops).
+// ---------------------------------------------------------------------------
+
+//@ ghost selCandidates int
+// seatOf(i) is the member index of position i of the operator list (i+1); it
+// is a named function only to give the quantified contracts a trigger.
+//@ spec func seatOf(i int) int
+//@ axiom seatOf-def: forall i int :: { @seatOf(i) } @seatOf(i) == i + 1
+
+//@ func signingRetryLoop.qualifiedOperatorsSet
+//@   property C10
+//@   deterministic
+//@   requires [ready-indexes-are-seats] forall k int :: 0 <= k && k < len(readyMembersIndexes) ==> 1 <= readyMembersIndexes[k] && int(readyMembersIndexes[k]) <= len(srl.signingGroupOperators)
+//@   requires len(readyMembersIndexes) <= 255
+//@   requires srl.attemptCounter >= 1
+//@   ensures [qualified-operators-are-operators-of-ready-members] err == nil ==> (forall x chain.Address :: ((x in result0) && result0[x]) ==> (exists k int :: 0 <= k && k < len(readyMembersIndexes) && srl.signingGroupOperators[int(readyMembersIndexes[k])-1] == x))
+//@   loop 1 invariant len(readySigningGroupOperators) == rangeidx1
+//@   loop 1 invariant forall k int :: 0 <= k && k < rangeidx1 ==> readySigningGroupOperators[k] == srl.signingGroupOperators[int(readyMembersIndexes[k])-1]
+
+//@ func signingRetryLoop.excludedMembersIndexes
+//@   property C10
+//@   deterministic
+//@   requires len(srl.signingGroupOperators) <= 255
+//@   requires srl.groupParameters.HonestThreshold >= 0
+//@   modifies ghost.selCandidates
+//@   yields ghost.selCandidates = len(includedMembersIndexes)
+//@   hint call:Slice@2 : [excluded-with-surplus-are-seats] forall t int :: 0 <= t && t < len(excludedMembersIndexes) ==> 1 <= excludedMembersIndexes[t] && int(excludedMembersIndexes[t]) <= len(srl.signingGroupOperators)
+//@   hint call:Slice@2 : [unqualified-stay-excluded] forall i int :: { @seatOf(i) } 0 <= i && i < len(srl.signingGroupOperators) && !((srl.signingGroupOperators[i] in qualifiedOperatorsSet) && qualifiedOperatorsSet[srl.signingGroupOperators[i]]) ==> (exists t int :: 0 <= t && t < len(excludedMembersIndexes) && int(excludedMembersIndexes[t]) == @seatOf(i))
+//@   hint call:Slice@2 : [unready-stay-excluded] forall i int :: { @seatOf(i) } 0 <= i && i < len(srl.signingGroupOperators) && (forall k int :: 0 <= k && k < len(readyMembersIndexes) ==> int(readyMembersIndexes[k]) != @seatOf(i)) ==> (exists t int :: 0 <= t && t < len(excludedMembersIndexes) && int(excludedMembersIndexes[t]) == @seatOf(i))
+//@   ensures [excluded-are-seats] forall t int :: 0 <= t && t < len(result) ==> 1 <= result[t] && int(result[t]) <= len(srl.signingGroupOperators)
+//@   ensures [exactly-threshold-included-when-enough-candidates] len(result) == len(srl.signingGroupOperators) - min(ghost.selCandidates, srl.groupParameters.HonestThreshold)
+//@   ensures [every-unqualified-member-is-excluded] forall i int :: { @seatOf(i) } 0 <= i && i < len(srl.signingGroupOperators) && !((srl.signingGroupOperators[i] in qualifiedOperatorsSet) && qualifiedOperatorsSet[srl.signingGroupOperators[i]]) ==> (exists t int :: 0 <= t && t < len(result) && int(result[t]) == @seatOf(i))
+//@   ensures [every-unready-member-is-excluded] forall i int :: { @seatOf(i) } 0 <= i && i < len(srl.signingGroupOperators) && (forall k int :: 0 <= k && k < len(readyMembersIndexes) ==> int(readyMembersIndexes[k]) != @seatOf(i)) ==> (exists t int :: 0 <= t && t < len(result) && int(result[t]) == @seatOf(i))
+//@   ensures [excluded-are-distinct] forall a, b int :: 0 <= a && a < b && b < len(result) ==> result[a] != result[b]
+//@   hint call:Rand.Shuffle : [included-distinct-after-sort] forall a, b int :: 0 <= a && a < b && b < len(includedMembersIndexes) ==> includedMembersIndexes[a] != includedMembersIndexes[b]
+//@   hint call:Rand.Shuffle : [included-disjoint-from-excluded-after-sort] forall a, b int :: 0 <= a && a < len(includedMembersIndexes) && 0 <= b && b < len(excludedMembersIndexes) ==> includedMembersIndexes[a] != excludedMembersIndexes[b]
+//@   hint call:Slice@2 : [included-distinct-after-shuffle] forall a, b int :: 0 <= a && a < b && b < len(includedMembersIndexes) ==> includedMembersIndexes[a] != includedMembersIndexes[b]
+//@   hint call:Slice@2 : [included-disjoint-from-excluded-after-shuffle] forall a, b int :: 0 <= a && a < len(includedMembersIndexes) && 0 <= b && b < len(excludedMembersIndexes) - (len(includedMembersIndexes) - srl.groupParameters.HonestThreshold) ==> includedMembersIndexes[a] != excludedMembersIndexes[b]
+//@   hint call:Slice@2 : [excluded-with-surplus-distinct] forall a, b int :: 0 <= a && a < b && b < len(excludedMembersIndexes) ==> excludedMembersIndexes[a] != excludedMembersIndexes[b]
+//@   loop 1 invariant len(includedMembersIndexes) + len(excludedMembersIndexes) == rangeidx1
+//@   loop 1 invariant forall a, b int :: 0 <= a && a < b && b < len(excludedMembersIndexes) ==> excludedMembersIndexes[a] != excludedMembersIndexes[b]
+//@   loop 1 invariant forall a, b int :: 0 <= a && a < b && b < len(includedMembersIndexes) ==> includedMembersIndexes[a] != includedMembersIndexes[b]
+//@   loop 1 invariant forall a, b int :: 0 <= a && a < len(includedMembersIndexes) && 0 <= b && b < len(excludedMembersIndexes) ==> includedMembersIndexes[a] != excludedMembersIndexes[b]
+//@   loop 1 invariant forall t int :: 0 <= t && t < len(excludedMembersIndexes) ==> 1 <= excludedMembersIndexes[t] && int(excludedMembersIndexes[t]) <= rangeidx1
+//@   loop 1 invariant forall t int :: 0 <= t && t < len(includedMembersIndexes) ==> 1 <= includedMembersIndexes[t] && int(includedMembersIndexes[t]) <= rangeidx1
+//@   loop 1 invariant forall i int :: { @seatOf(i) } 0 <= i && i < rangeidx1 && !((srl.signingGroupOperators[i] in qualifiedOperatorsSet) && qualifiedOperatorsSet[srl.signingGroupOperators[i]]) ==> (exists t int :: 0 <= t && t < len(excludedMembersIndexes) && int(excludedMembersIndexes[t]) == @seatOf(i))
+//@   loop 1 invariant forall i int :: { @seatOf(i) } 0 <= i && i < rangeidx1 && (forall k int :: 0 <= k && k < len(readyMembersIndexes) ==> int(readyMembersIndexes[k]) != @seatOf(i)) ==> (exists t int :: 0 <= t && t < len(excludedMembersIndexes) && int(excludedMembersIndexes[t]) == @seatOf(i))
+
+//@ func signingRetryLoop.performMembersSelection
+//@   property C10
+//@   deterministic
+//@   requires [ready-indexes-are-seats] forall k int :: 0 <= k && k < len(readyMembersIndexes) ==> 1 <= readyMembersIndexes[k] && int(readyMembersIndexes[k]) <= len(srl.signingGroupOperators)
+//@   requires len(readyMembersIndexes) <= 255
+//@   requires len(srl.signingGroupOperators) <= 255
+//@   requires srl.groupParameters.HonestThreshold >= 0
+//@   requires srl.attemptCounter >= 1
+//@   modifies ghost.selCandidates
+//@   ensures [excluded-are-seats] err == nil ==> (forall t int :: 0 <= t && t < len(result0) ==> 1 <= result0[t] && int(result0[t]) <= len(srl.signingGroupOperators))
+//@   ensures [exactly-threshold-included-when-enough-candidates] err == nil ==> len(result0) == len(srl.signingGroupOperators) - min(ghost.selCandidates, srl.groupParameters.HonestThreshold)
+//@   ensures [excluded-are-distinct] err == nil ==> (forall a, b int :: 0 <= a && a < b && b < len(result0) ==> result0[a] != result0[b])
+//@   ensures [only-ready-members-are-included] err == nil ==> (forall i int :: { @seatOf(i) } 0 <= i && i < len(srl.signingGroupOperators) && (forall k int :: 0 <= k && k < len(readyMembersIndexes) ==> int(readyMembersIndexes[k]) != @seatOf(i)) ==> (exists t int :: 0 <= t && t < len(result0) && int(result0[t]) == @seatOf(i)))
+
+//@ func dkgRetryLoop.qualifiedOperatorsSet
+//@   property C10
+//@   deterministic
+//@   requires [ready-indexes-are-seats] forall k int :: 0 <= k && k < len(readyMembersIndexes) ==> 1 <= readyMembersIndexes[k] && int(readyMembersIndexes[k]) <= len(drl.selectedOperators)
+//@   requires len(readyMembersIndexes) <= 255
+//@   requires drl.attemptCounter >= 1 && drl.attemptCounter <= 1000000000
+//@   requires drl.groupParameters.GroupQuorum >= 0 && drl.groupParameters.GroupQuorum <= 1000000000
+//@   ensures [qualified-operators-are-operators-of-ready-members] err == nil ==> (forall x chain.Address :: ((x in result0) && result0[x]) ==> (exists k int :: 0 <= k && k < len(readyMembersIndexes) && drl.selectedOperators[int(readyMembersIndexes[k])-1] == x))
+//@   ensures [first-attempt-keeps-every-ready-operator] err == nil && drl.attemptCounter == 1 ==> (forall k int :: 0 <= k && k < len(readyMembersIndexes) ==> (drl.selectedOperators[int(readyMembersIndexes[k])-1] in result0) && result0[drl.selectedOperators[int(readyMembersIndexes[k])-1]])
+//@   loop 1 invariant len(readyOperators) == rangeidx1
+//@   loop 1 invariant forall k int :: 0 <= k && k < rangeidx1 ==> readyOperators[k] == drl.selectedOperators[int(readyMembersIndexes[k])-1]
+
+//@ func dkgRetryLoop.performMembersSelection
+//@   property C10
+//@   deterministic
+//@   requires [ready-indexes-are-seats] forall k int :: 0 <= k && k < len(readyMembersIndexes) ==> 1 <= readyMembersIndexes[k] && int(readyMembersIndexes[k]) <= len(drl.selectedOperators)
+//@   requires len(readyMembersIndexes) <= 255
+//@   requires len(drl.selectedOperators) <= 255
+//@   requires drl.attemptCounter >= 1 && drl.attemptCounter <= 1000000000
+//@   requires drl.groupParameters.GroupQuorum >= 0 && drl.groupParameters.GroupQuorum <= 1000000000
+//@   ensures [excluded-are-seats] err == nil ==> (forall t int :: 0 <= t && t < len(result0) ==> 1 <= result0[t] && int(result0[t]) <= len(drl.selectedOperators))
+//@   ensures [only-ready-members-are-included] err == nil ==> (forall i int :: { @seatOf(i) } 0 <= i && i < len(drl.selectedOperators) && (forall k int :: 0 <= k && k < len(readyMembersIndexes) ==> int(readyMembersIndexes[k]) != @seatOf(i)) ==> (exists t int :: 0 <= t && t < len(result0) && int(result0[t]) == @seatOf(i)))
+//@   ensures [first-attempt-includes-every-ready-member] err == nil && drl.attemptCounter == 1 ==> (forall t int :: 0 <= t && t < len(result0) ==> !(exists k int :: 0 <= k && k < len(readyMembersIndexes) && readyMembersIndexes[k] == result0[t]))
+//@   ensures [excluded-strictly-ascending] err == nil ==> (forall t int :: 0 <= t && t+1 < len(result0) ==> result0[t] < result0[t+1])
+//@   loop 1 invariant forall t int :: 0 <= t && t < len(excludedMembersIndexes) ==> 1 <= excludedMembersIndexes[t] && int(excludedMembersIndexes[t]) <= rangeidx1
+//@   loop 1 invariant forall t int :: 0 <= t && t+1 < len(excludedMembersIndexes) ==> excludedMembersIndexes[t] < excludedMembersIndexes[t+1]
+//@   loop 1 invariant forall i int :: { @seatOf(i) } 0 <= i && i < rangeidx1 && (forall k int :: 0 <= k && k < len(readyMembersIndexes) ==> int(readyMembersIndexes[k]) != @seatOf(i)) ==> (exists t int :: 0 <= t && t < len(excludedMembersIndexes) && int(excludedMembersIndexes[t]) == @seatOf(i))
+//@   loop 1 invariant drl.attemptCounter == 1 ==> (forall t int :: 0 <= t && t < len(excludedMembersIndexes) ==> !(exists k int :: 0 <= k && k < len(readyMembersIndexes) && readyMembersIndexes[k] == excludedMembersIndexes[t]))
